@@ -112,7 +112,8 @@ enum {
 	K_NONE,
 	K_RECVBUF0_A, K_RECVBUF1_A, K_RECVBUF8_A,
 	K_SENDBUF0_B, K_SENDBUF1_B, K_SENDBUF8_B,
-	K_RECVBUF1_B, K_SENDBUF1_A,
+	K_RECVBUF1_B, K_SENDBUF1_A, K_SENDBUF_5_10_B, K_RECVBUF_5_3_A,
+	K_SENDBUF_3_B_RECVBUF_6_A,
 	K_RESEND_INF, K_RESEND_1MS, K_SURVEYTIME_1,
 	K_MAXTTL1_A, K_PREFNEW_OFF, K_RECVMAX_2,
 	K_CTX_OPENCLOSE_A, K_CTX_PENDING_CLOSE_A, K_CTX_OPENCLOSE_B,
@@ -126,6 +127,7 @@ enum {
 };
 static const char *KN[] = { "none", "recvbuf0(A)", "recvbuf1(A)", "recvbuf8(A)",
 	"sendbuf0(B)", "sendbuf1(B)", "sendbuf8(B)", "recvbuf1(B)", "sendbuf1(A)",
+	"sendbuf 5 then 10(B)", "recvbuf 5 then 3(A)", "sendbuf3(B)+recvbuf6(A)",
 	"resend=inf(B)", "resend=1ms(B)", "surveytime=1(B)", "maxttl=1(A)",
 	"prefnew=off(A)", "recvmaxsz=2(A)", "ctx open/close(A)",
 	"ctx pending recv + close(A)", "ctx open/close(B)", "aio recv + cancel(A)",
@@ -168,6 +170,20 @@ perturb(int k)
 		break;
 	case K_SENDBUF1_A:
 		(void) nng_socket_set_int(A, NNG_OPT_SENDBUF, 1);
+		break;
+	case K_SENDBUF_5_10_B:
+		(void) nng_socket_set_int(B, NNG_OPT_SENDBUF, 5);
+		(void) nng_socket_set_int(B, NNG_OPT_SENDBUF, 10);
+		break;
+	case K_RECVBUF_5_3_A:
+		(void) nng_socket_set_int(A, NNG_OPT_RECVBUF, 5);
+		(void) nng_socket_set_int(A, NNG_OPT_RECVBUF, 3);
+		break;
+	case K_SENDBUF_3_B_RECVBUF_6_A:
+		(void) nng_socket_set_int(B, NNG_OPT_SENDBUF, 3);
+		(void) nng_socket_set_int(A, NNG_OPT_RECVBUF, 6);
+		(void) nng_socket_set_int(B, NNG_OPT_SENDBUF, 6);
+		(void) nng_socket_set_int(A, NNG_OPT_RECVBUF, 12);
 		break;
 	case K_RESEND_INF:
 		(void) nng_socket_set_ms(B, NNG_OPT_REQ_RESENDTIME,
